@@ -7,8 +7,11 @@ execution) reads the table source with `ast`, and is cross-checked dynamically
 by looking for element functions no template references."""
 from __future__ import annotations
 
+import json
+
 import ast
 import os
+import sys
 import re
 
 ID = "C20"
@@ -18,14 +21,18 @@ RULE = (
     "exhaustive: 256 byte values, all 65 536 two-byte strings through both code-page "
     "converters; every key of the element table, the modifier table, the parser's modifier "
     "lists and structure table through tokenise/parse/transpile; every entry of elements.yaml "
-    "against the table arity. distinct_nontrivial counts distinct (obligation kind, subject) "
+    "against the table arity; every byte string of length <= 2 written to a program file in the code-page encoding "
+    "(flag v) and as UTF-8 text and run through execute_vyxal with the transpiler's input recorded; every element of "
+    "arity 0..3 run directly and through the modifier ß on four kinds of arguments (same final stack whenever the "
+    "element leaves one result). distinct_nontrivial counts distinct (obligation kind, subject) "
     "pairs actually executed; a two-byte string is non-trivial when its bytes differ."
 )
 ASSUMPTIONS = [
     "duplicate-key detection reads vyxal/elements.py with ast (declared static step)",
     "elements.yaml is read by a line-based subset parser (no yaml library offline)",
 ]
-MIN_COUNTERS = {"roundtrip_2byte": 65536, "keys_tokenised": 300, "yaml_entries": 300, "keys_in_context": 3000}
+MIN_COUNTERS = {"roundtrip_2byte": 65536, "keys_tokenised": 300, "yaml_entries": 300, "keys_in_context": 3000,
+                "program_files_run": 120000, "arity_in_use_compared": 400}
 
 import string  # noqa: E402
 
@@ -42,6 +49,12 @@ def units(tier, seed):
     for hi in range(0, 256, 16):
         u.append({"kind": "codepage2", "lo": hi, "hi": hi + 16})
     u += [{"kind": "keys"}, {"kind": "dupes"}, {"kind": "yaml"}, {"kind": "parser_lists"}]
+    # the running system, not only its tables: program files in both encodings reach the lexer as the
+    # code-page text they encode; an element used through a modifier consumes what its arity says
+    for hi in range(0, 256, 16):
+        u.append({"kind": "filebytes", "lo": hi, "hi": hi + 16})
+    for part in range(4):
+        u.append({"kind": "arity_in_use", "part": part, "of": 4})
     return u
 
 
@@ -103,6 +116,113 @@ def run_unit(unit):
         c["roundtrip_2byte"] = n
         res["distinct"] = n - (unit["hi"] - unit["lo"])
         res["unit"] = unit
+    elif k == "filebytes":
+        import shutil
+        import tempfile
+
+        import vyxal.main as M
+
+        class _Captured(BaseException):
+            pass
+
+        got = []
+
+        def recorder(code, *a, **kw):
+            got.append(code)
+            raise _Captured()
+
+        d = tempfile.mkdtemp(prefix="verif-c20-")
+        orig = M.transpile
+        M.transpile = recorder
+        n = 0
+        try:
+            path = os.path.join(d, "prog")
+            strings = [bytes([a]) for a in range(unit["lo"], unit["hi"])]
+            strings += [bytes([a, b]) for a in range(unit["lo"], unit["hi"]) for b in range(256)]
+            for bs in strings:
+                want = "".join(cp[b] for b in bs)
+                for mode in ("v", "utf8"):
+                    if mode == "utf8" and ("\r" in want):
+                        continue
+                    with open(path, "wb") as f:
+                        f.write(bs if mode == "v" else want.encode("utf-8"))
+                    got.clear()
+                    try:
+                        M.execute_vyxal(path, "v" if mode == "v" else "", [])
+                    except _Captured:
+                        pass
+                    except SystemExit:
+                        pass
+                    n += 1
+                    if got != [want]:
+                        if len(res["violations"]) < 6:
+                            res["violations"].append(V(
+                                "program_file_text", f"program file with bytes {list(bs)} ({'code-page' if mode == 'v' else 'UTF-8'} "
+                                f"encoding) reached the transpiler as {got!r}, its text is {want!r}",
+                                unit_kind=k, subject=list(bs), lo=unit["lo"], hi=unit["hi"]))
+        finally:
+            M.transpile = orig
+            shutil.rmtree(d, ignore_errors=True)
+        res["evals"] = n
+        c["program_files_run"] = n
+        res["distinct"] = n
+        res["violations"] = [dict(v, unit=unit) for v in res["violations"]]
+    elif k == "arity_in_use":
+        from lib import env, values
+        from lib.worker import Watchdog, watchdog
+
+        whole_stack = {"W", "^", "!", "„", "‟", "Ȯ", "†", "¨ẇ", "Ė"}
+        # elements that read the context variable see the function's own context when called: left out
+        keys = [key for key in E.elements if key not in whole_stack and 0 <= E.elements[key][1] <= 3
+                and "context_values" not in E.elements[key][0]]
+        import random as _random
+        for key in keys[unit["part"]::unit["of"]]:
+            a = E.elements[key][1]
+            for sent in ([10007, 10009, 10037], [3, 4, 5], ["ab", "cd", "ef"], [[1, 2], [3], [4, 5]]):
+                outs = {}
+                # a called function receives its arguments in reversed order (the convention C11 is about), so
+                # the direct run gets the top `a` entries reversed
+                rsent = sent[:3 - a] + sent[3 - a:][::-1]
+                for how, prog, args in (("direct", key, rsent), ("ß", "ß" + key, sent + [1])):
+                    try:
+                        with watchdog(3):
+                            _random.seed(20)  # random-choice elements draw the same in both runs
+                            r = env.run_text(prog, stack=[values.from_spec(x) for x in args])
+                            if r.error is not None:
+                                break
+                            outs[how] = values.canon_loose(r.stack, 400)
+                    except (Watchdog, MemoryError, RecursionError):
+                        break
+                    except SystemExit:  # the quit element; exit() closes stdin
+                        try:
+                            if sys.stdin is None or sys.stdin.closed:
+                                sys.stdin = open(os.devnull)
+                        except Exception:  # noqa
+                            pass
+                        break
+                    except Exception:  # noqa
+                        break
+                if len(outs) != 2:
+                    continue
+                d = outs["direct"]
+                if _has_tag(d) or _has_tag(outs["ß"]):
+                    continue  # a result that is not a Vyxal value (e.g. an unevaluated map object) has no value to compare
+                # exactly one result in place of the a consumed entries: a lambda hands back one value, so only
+                # then must the call through the modifier leave what the element itself leaves
+                if not isinstance(d, list) or len(d) != 3 - a + 1 or d[:3 - a] != values.canon_loose(sent[:3 - a], 400):
+                    continue
+                res["evals"] += 1
+                c["arity_in_use_compared"] = c.get("arity_in_use_compared", 0) + 1
+                res["keys"].append(f"inuse:{key}:{type(sent[0]).__name__}")
+                if outs["ß"] != d:
+                    try:
+                        txt = f"leaves {d!r}; called through the modifier ß with a true condition on {sent!r} it leaves {outs['ß']!r}"
+                    except ValueError:  # integers beyond the interpreter's digit limit for str()
+                        txt = "leaves something else than the call through the modifier ß with a true condition (values too long to print)"
+                    res["violations"].append(V("arity_in_use", f"element {key!r} (arity {a}) on {rsent!r} {txt}"[:900],
+                                               unit_kind=k, subject=key))
+                    break
+        res["violations"] = [dict(v, unit=unit) for v in res["violations"]][:12]
     elif k == "keys":
         names = [("element", key) for key in E.elements] + [("modifier", key) for key in E.modifiers]
         names += [("structure", ch) for ch in parse.OPENING_CHARACTERS + parse.CLOSING_CHARACTERS]
@@ -237,6 +357,14 @@ def run_unit(unit):
                 res["violations"].append(V("arity_mismatch", f"element {key!r}: documented arity {doc!r}, table arity {table}", unit_kind=k, subject=key, documented=doc, table=table))
         res["samples"].append(entries[10] if len(entries) > 10 else {})
     return res
+
+
+def _has_tag(v):
+    if isinstance(v, dict):
+        return "x" in v or any(_has_tag(x) for x in v.values())
+    if isinstance(v, list):
+        return any(_has_tag(x) for x in v)
+    return False
 
 
 def _unq(s):
